@@ -213,8 +213,10 @@ def h_equal(kind):
         ctx.assume(S.within(proto, 0, 5))
         a, b, proto = ctx.concrete(a), ctx.concrete(b), ctx.concrete(proto)
         t = ctx.concrete(S.mulc(S.div(t, GRID), GRID))       # instants on a coarse grid keep realisation finite
-        with ctx.untraced():
-            return body(ctx, a, b, t, proto)
+        if ctx.symbolic:
+            return None          # all inputs are pinned: the check itself runs in the native replay of this path's witness
+        body(ctx, a, b, t, proto)
+        return None
 
     def body(ctx, a, b, t, proto):
         za, zb = mk(a), mk(b)
@@ -238,7 +240,7 @@ def h_equal(kind):
         for name, c in made:
             ctx.check(c == za and za == c, "%s of a zone is not equal to it" % name, key="copy-eq-%s-%s" % (kind, name.rstrip("012345")))
             ctx.check(answers(c) == answers(za), "%s of a zone answers differently" % name, key="copy-answers-%s" % kind)
-        return str(answers(za))
+        return None
     return fn, types
 
 
